@@ -210,6 +210,19 @@ def OPS(E):
             return [(('V',) if keys == ('rc', 'res', 'err') else ('R',)) + tuple(q.get(k) for k in keys)]
         return f
 
+    def set_then_sign(uri):
+        # the service is configured while allocations fail, then used: a configuration call that answered KSI_OK has configured what the fault-free
+        # call configures (the marker says whether the fault fell into the configuration call)
+        def f(r):
+            nh, nt = len(r.sess.http), len(r.sess.tcp_order)
+            f0 = r.c('fp stat').get('failed')
+            q = r.c('set_aggr 0 %s anon anon' % uri)
+            fired = r.c('fp stat').get('failed') != f0
+            q2 = r.c('sign 0 1 %s' % h.hex())
+            via = 'http:' + str(r.sess.http[nh].get('url')) if len(r.sess.http) > nh else 'tcp' if len(r.sess.tcp_order) > nt else 'no-transport'
+            return [('R', q.get('rc')), ('R', q2.get('rc'), q2.get('sig'), via), ('M', 'configured-under-fault' if fired and q.get('rc') == '0' else '-')]
+        return f
+
     def async_sign(r):
         out = [r.c('async_add 0 0 sign %s 0 t1' % h.hex()).get('rc')]
         out += [r.c('async_add 0 0 sign %s 3 t2' % R.H(1, b'second').hex()).get('rc')]
@@ -263,6 +276,8 @@ def OPS(E):
         'clone': (with_sig, one('sigclone 0 1')),
         'sign_http': (with_net, one('sign 0 1 %s lvl=2' % h.hex(), ('rc', 'sig'))),
         'sign_tcp': (with_tcp, one('sign 0 1 %s' % h.hex(), ('rc', 'sig'))),
+        'set_service_then_sign_tcp': (base, set_then_sign('ksi+tcp://a.example:1')),
+        'set_service_then_sign_http': (base, set_then_sign('ksi+http://a.example/x')),
         'extend_http': (with_net, one('extend 0 0 1 to=%d' % (E.t + 7 * 86400), ('rc', 'sig'))),
         'extend_pubrec': (with_net, one('extend 0 0 1 pub=%s' % R.pub_string(E.t + 9 * 86400, E.cal.chain(E.t, E.t + 9 * 86400, E.sig.root).root()), ('rc', 'sig'))),
         'extend_pubrec_from_file': (with_net_pubfile, one('extend 0 0 1 pubrecfile=0:%d' % (E.t + 9 * 86400), ('rc', 'sig'))),
@@ -409,6 +424,14 @@ def worker(job, r):
                         tag, N, brc, retry, 'the fault-free signature' if bsig == ref[0][2] else ('ANOTHER signature (%d instead of %d bytes)' % (len(bsig or '') // 2, len(ref[0][2] or '') // 2))), 'op=%s failat=%s' % (name, tag))
                 else:
                     r.count('builder_close_repeated_ok')
+            if name.startswith('set_service_then_sign') and failed and len(fs) == 1 and res[2][1] == 'configured-under-fault':
+                if res[1] != ref[1]:
+                    r.viol('wrong-result:%s:configured-otherwise' % name, 'allocation %s of %d failed inside KSI_CTX_setAggregator, which answered KSI_OK; the request that follows gives %s, fault-free %s' % (tag, N, str(res[1])[:120], str(ref[1])[:120]), 'op=%s failat=%s' % (name, tag))
+                else:
+                    r.count('service_configured_under_fault_as_without')
+                res = ref
+            elif name.startswith('set_service_then_sign'):
+                res = [x for x in res if x[0] != 'M'] + [ref[2]]
             r.observe((name, tag, is_error(res), failed))
             r.count('faults_injected' if failed else 'fault_not_reached')
             if failed and is_error(res):
